@@ -99,6 +99,31 @@ def make(fmt, seed, n):
     yield from marks(fmt)
     if fmt in ('json', 'csv'):
         yield from textcols(fmt)
+    yield from shapes(fmt)
+
+
+def shapes(fmt):
+    """legal data shapes the random generator never draws: a point at exactly zero pressure (first, in the middle after a
+    desorption to vacuum, zero loading too), several supplementary columns in non-alphabetical order"""
+    import pandas
+    import pygaps
+    pygaps.logger.disabled = True
+    meta = dict(material='pgv_rt_mat', adsorbate='nitrogen', temperature=77.355, pressure_mode='absolute', pressure_unit='bar', loading_basis='molar',
+                loading_unit='mmol', material_basis='mass', material_unit='g', temperature_unit='K')
+    cases = {
+        'zero_first': ([0.0, 0.1, 0.2, 0.4], [0.0, 1.0, 1.5, 2.0], [0, 0, 0, 0]),
+        'zero_after_desorption': ([0.5, 1.0, 2.0, 3.0, 2.0, 1.0, 0.0], [1.0, 1.5, 2.0, 2.5, 2.3, 1.9, 0.4], [0, 0, 0, 0, 1, 1, 1]),
+        'zero_in_the_middle': ([0.5, 1.0, 2.0, 1.0, 0.0, 0.5, 1.5], [1.0, 1.5, 2.0, 1.9, 0.4, 0.9, 1.6], [0, 0, 0, 1, 1, 0, 0]),
+    }
+    for tag, (p, l, b) in cases.items():
+        if fmt == 'aif' and tag == 'zero_in_the_middle':
+            continue  # interleaved branches: listed finding of the AIF format
+        yield f"shape:{tag}", pygaps.PointIsotherm(pressure=p, loading=l, branch=b, **meta)
+    p, l = [0.05, 0.1, 0.2, 0.4, 0.3, 0.15], [0.5, 1.0, 1.5, 2.0, 1.9, 1.6]
+    cols = {'temperature_cell': [77.1, 77.2, 77.3, 77.2, 77.1, 77.0], 'enthalpy': [9.0, 8.5, 8.0, 7.5, 7.7, 8.1], 'dose': [1, 2, 3, 4, 5, 6]}
+    for order in (('temperature_cell', 'enthalpy', 'dose'), ('dose', 'enthalpy', 'temperature_cell'), ('enthalpy', 'temperature_cell', 'dose')):
+        df = pandas.DataFrame({'pressure': p, 'loading': l, **{c: [float(v) for v in cols[c]] for c in order}})
+        yield f"shape:extra_columns|{'+'.join(order)}", pygaps.PointIsotherm(isotherm_data=df, pressure_key='pressure', loading_key='loading', **meta)
 
 
 def textcols(fmt):
